@@ -220,3 +220,160 @@ def capture_violation(name):
         return None if kw == want else f"_get_kwargs returned {kw!r}, documented request is {want!r}"
     finally:
         pkg.cleanup()
+
+
+# ---- native oracles for the endpoint fragments (replay of C03 / C04 / C10 obligations) --------------------------------------
+
+def _kind_samples(kind, mod_pkg):
+    import datetime
+    import uuid
+    if kind == "str":
+        return [("s", "s", "s"), ("", "", "")]
+    if kind == "nullstr":
+        return [("s", "s", "s"), (None, None, None)]
+    if kind == "int":
+        return [(5, 5, "5"), (0, 0, "0")]
+    if kind == "num":
+        return [(1.5, 1.5, "1.5"), (0.0, 0.0, "0.0")]
+    if kind == "bool":
+        return [(True, True, "true"), (False, False, "false")]
+    if kind == "date":
+        return [(datetime.date(2020, 1, 2), "2020-01-02", "2020-01-02")]
+    if kind == "datetime":
+        return [(datetime.datetime(2020, 1, 2, 3, 4, 5, tzinfo=datetime.timezone.utc), "2020-01-02T03:04:05+00:00", None)]
+    if kind == "uuid":
+        u = uuid.UUID("07ef8b4d-aa09-4ffa-898d-c710796aff41")
+        return [(u, str(u), str(u))]
+    if kind == "enum":
+        C = mod_pkg.module("models.color").Color
+        return [(m, m.value, m.value) for m in C]
+    if kind == "liststr":
+        return [(["a", "b"], ["a", "b"], None), ([], [], None)]
+    if kind == "listdate":
+        return [([datetime.date(2020, 1, 2)], ["2020-01-02"], None), ([], [], None)]
+    raise KeyError(kind)
+
+
+def get_kwargs_violation(version, opid):
+    """None if the generated _get_kwargs of the schematic operation returns exactly the documented request for a small
+    enumeration of concrete arguments (all combinations of unset / sample values per parameter, each body alternative)"""
+    import inspect
+    import itertools
+    import string
+    import contracts.endpoints_f as ef
+    pkg, doc = package("endpoints", version)
+    _, ops, _ = ef.document(version)
+    method, path, params, content = ops[opid]
+    tag = "t" if content is None else "b"
+    mod = pkg.module(f"api.{tag}.{opid}")
+    unset = pkg.module("types").UNSET
+    sig = inspect.signature(mod._get_kwargs)
+    names = [n for n in sig.parameters if n != "body"]
+    by_loc = {"path": [], "query": [], "header": [], "cookie": []}
+    for p in params:
+        by_loc[p["in"]].append(p)
+    order = [seg[1] for seg in string.Formatter().parse(path) if seg[1]]
+    by_loc["path"].sort(key=lambda p: order.index(p["name"]))
+    ordered = by_loc["path"] + by_loc["query"] + by_loc["header"] + by_loc["cookie"]
+    if len(ordered) != len(names):
+        return f"_get_kwargs accepts {names}, the document declares {[(p['name'], p['in']) for p in ordered]}"
+    choices = []
+    for p in ordered:
+        kind = ef._kind_of(p["schema"])
+        opts = list(_kind_samples(kind, pkg))
+        if not p["required"]:
+            opts.append((unset, unset, unset))
+        choices.append(opts)
+    bodies = [None]
+    if content is not None:
+        bodies = []
+        comps = doc["components"]["schemas"]
+        from openapi_python_client import utils
+        for ctype, mt in content.items():
+            schema = mt["schema"]
+            if ctype == "application/octet-stream":
+                import io
+                File = pkg.module("types").File
+                payload = io.BytesIO(b"x")
+                bodies.append((File(payload=payload), "content", payload, ctype))
+            elif "$ref" in schema:
+                name = schema["$ref"].rsplit("/", 1)[1]
+                cls = getattr(pkg.module("models." + utils.snake_case(name)), name)
+                src = [s for s in instances(comps[name], comps, 0, 6) if isinstance(s, dict)][0]
+                obj = cls.from_dict(dict(src))
+                if ctype == "multipart/form-data":
+                    bodies.append((obj, "files", obj.to_multipart(), None))
+                elif ctype == "application/x-www-form-urlencoded":
+                    bodies.append((obj, "data", src, ctype))
+                else:
+                    bodies.append((obj, "json", src, ctype))
+            elif schema.get("type") == "array":
+                name = schema["items"]["$ref"].rsplit("/", 1)[1]
+                cls = getattr(pkg.module("models." + utils.snake_case(name)), name)
+                src = [s for s in instances(comps[name], comps, 0, 6) if isinstance(s, dict)][0]
+                bodies.append(([cls.from_dict(dict(src))], "json", [src], ctype))
+            else:
+                bodies.append(("text", "json", "text", ctype))
+    for combo in itertools.islice(itertools.product(*choices), 600):
+        for b in bodies:
+            kw = {n: c[0] for n, c in zip(names, combo)}
+            exp = {"method": method}
+            pathvals = {p["name"]: (c[2] if c[2] is not None else c[0]) for p, c in zip(ordered, combo) if p["in"] == "path"}
+            exp["url"] = path
+            for k, v in pathvals.items():
+                exp["url"] = exp["url"].replace("{" + k + "}", str(v))
+            if by_loc["query"]:
+                exp["params"] = {p["name"]: c[1] for p, c in zip(ordered, combo) if p["in"] == "query" and c[0] is not unset and c[0] is not None}
+            if by_loc["cookie"]:
+                exp["cookies"] = {p["name"]: c[0] for p, c in zip(ordered, combo) if p["in"] == "cookie" and c[0] is not unset}
+            headers = {p["name"]: c[2] for p, c in zip(ordered, combo) if p["in"] == "header" and c[0] is not unset}
+            if b is not None:
+                kw["body"] = b[0]
+                exp[b[1]] = b[2]
+                if b[3] is not None:
+                    headers["Content-Type"] = b[3]
+            if by_loc["header"] or b is not None:
+                exp["headers"] = headers
+            try:
+                got = mod._get_kwargs(**kw)
+            except BaseException as e:  # noqa
+                return f"_get_kwargs({kw!r}) raised {type(e).__name__}: {e}"
+            if got != exp:
+                return f"_get_kwargs({kw!r}) returned {got!r}; the document prescribes {exp!r}"
+    return None
+
+
+def parse_response_violation(version, opid="op_resp"):
+    """documented statuses decode per media type, undocumented ones give None / UnexpectedStatus (C04), natively"""
+    import contracts.endpoints_f as ef
+    pkg, doc = package("endpoints", version)
+    _, _, resp = ef.document(version)
+    mod = pkg.module(f"api.r.{opid}")
+    cases = {200: ({"id": 1}, "json"), 201: ([{"id": 1}, {"id": 2}], "json"), 202: ("hello", "text"), 203: (b"bytes", "bytes"),
+             204: (None, "none"), 205: (7, "json"), 400: ("oops", "json"), 404: ({"msg": "m"}, "json"), 418: ({"any": 1}, "json")}
+    for entry in ("_parse_response", "_build_response"):
+        for code, (body, kind) in cases.items():
+            r = _FakeResponse(code, content=b"raw", json_value=body if kind == "json" else None,
+                              text=body if kind == "text" else "")
+            for flag in (False, True):
+                try:
+                    out = getattr(mod, entry)(client=_FakeClient(flag), response=r)
+                except BaseException as e:  # noqa
+                    return f"{entry} raised {type(e).__name__}: {e} for documented status {code}"
+                parsed = out.parsed if entry == "_build_response" else out
+                if kind == "json":
+                    enc = parsed.to_dict() if hasattr(parsed, "to_dict") else ([x.to_dict() for x in parsed] if isinstance(parsed, list) and parsed and hasattr(parsed[0], "to_dict") else parsed)
+                    if enc != body:
+                        return f"{entry}: status {code} decoded to {parsed!r}, whose encoding {enc!r} is not the body {body!r}"
+                elif kind == "text" and parsed != body:
+                    return f"{entry}: status {code} (text) gave {parsed!r}"
+                elif kind == "none" and parsed is not None:
+                    return f"{entry}: status {code} (no content) gave {parsed!r}"
+                elif kind == "bytes" and not (hasattr(parsed, "payload") and parsed.payload.read() == b"raw"):
+                    return f"{entry}: status {code} (octet-stream) gave {parsed!r}"
+        for flag in (False, True):
+            for content in (b"x", b"\xff\xfe not utf-8"):
+                why = build_response_violation(version, opid, 500, flag, content=content, entry=entry)
+                if why:
+                    return why
+    return None
